@@ -221,6 +221,11 @@ func runC16(c *vk.Ctx) {
 			return h
 		}
 		nops := opsPer/2 + r.Intn(opsPer)
+		if m >= 32 {
+			// wide nodes only split once they hold more than m children: needs that many distinct keys
+			alpha, maxLen = 4, 6
+			nops = 3*int(m) + r.Intn(200)
+		}
 		for step := 0; step < nops; step++ {
 			key := c16Key(r, alpha, maxLen)
 			ks := string(key)
